@@ -54,6 +54,9 @@
 (*  "clip"    start st and end en (integer ticks of unit u), written as    *)
 (*            enc in "num", "int", "str", "str_num", "num_str"             *)
 (*  "score"   field (one of Fields), value v (one of ScoreValues), enc     *)
+(* Score cases on Match.affinity / Match.score also say which SIDES the    *)
+(* match carrying the number has: "both", "source" only, "target" only --  *)
+(* a bound on a number does not depend on it, so Valid ignores sides.      *)
 (* Fields that say HOW the case is run and that Valid never reads:         *)
 (*   mp  the mapping type handed to the dict-validation path (model_validate*)
 (*       accepts any Mapping): "dict", "proxy" (types.MappingProxyType),   *)
